@@ -12,9 +12,13 @@ REPL=$(mktemp -d /tmp/mutrep.XXXXXX)
 build_ok=1
 ( cd sim && cargo build --release --offline ) >/tmp/mut-build.log 2>&1 || build_ok=0
 if [ $build_ok -eq 0 ]; then echo "BUILD-FAILED $(tail -3 /tmp/mut-build.log | tr '\n' ' ')"; exit 2; fi
+if [ "${NOSTD:-0}" = "1" ]; then
+  ( cd sim && cargo build --release --offline --no-default-features --features flavor-nostd --target-dir /verif/sim/target-nostd ) >/tmp/mut-build.log 2>&1 || { echo "BUILD-FAILED(nostd)"; exit 2; }
+fi
 for p in "$@"; do
-  flav=std
-  out=$(timeout 900 ./sim/target/release/cachesim check --prop "$p" --tier "${TIER:-quick}" --replays "$REPL" --known /verif/known_findings.json ${RUNS:+--runs $RUNS} 2>&1)
+  BIN=./sim/target/release/cachesim
+  [ "${NOSTD:-0}" = "1" ] && BIN=./sim/target-nostd/release/cachesim
+  out=$(timeout 900 $BIN check --prop "$p" --tier "${TIER:-quick}" --replays "$REPL" --known /verif/known_findings.json ${RUNS:+--runs $RUNS} 2>&1)
   rc=$?
   if [ $rc -eq 1 ]; then
     echo "DETECTED $p :: $(echo "$out" | grep -m1 '^DETAIL' | cut -c1-260)"
@@ -28,3 +32,4 @@ done
 rm -rf "$REPL"
 # leave a binary that matches the reverted tree behind
 git -C /repo checkout -- . ; ( cd sim && cargo build --release --offline ) >/dev/null 2>&1
+if [ "${NOSTD:-0}" = "1" ]; then ( cd sim && cargo build --release --offline --no-default-features --features flavor-nostd --target-dir /verif/sim/target-nostd ) >/dev/null 2>&1; fi
